@@ -113,6 +113,9 @@ class Check:
         ok_jobs = []
         # counterexample extraction for all FAILED harnesses, in parallel (each is a second Kani run)
         failed = [r for r in results if r.status == "failed" and r.job.expect != "fail"]
+        for r in results:
+            if r.job.expect == "known" and r.status == "successful":
+                self.notes.append(f"{r.job.jid}: the pinned known finding no longer fails - the entry in known_findings.json is stale")
         pbs_by_jid = {}
         if failed:
             from concurrent.futures import ThreadPoolExecutor
@@ -131,7 +134,8 @@ class Check:
                     self.undecided.append((job.jid, "canary undecided: " + res.reason))
                 continue
             if res.status == "successful":
-                ok_jobs.append(res)
+                if job.expect != "known":
+                    ok_jobs.append(res)
             elif res.status == "failed":
                 self.handle_failed(res, describe, pbs_by_jid.get(job.jid, []))
             else:
